@@ -17,7 +17,7 @@ Ltac bool_lia := intros; cbv zeta; rewrite ?if_bool; lia.
 
 (* decide every `if` whose condition lia can decide from the hypotheses (whatever the nesting of ifs / switches
    the source uses) *)
-Ltac decide_ifs :=
+Ltac st_decide_ifs :=
   repeat match goal with
          | |- context [if ?c then _ else _] =>
              lazymatch c with
@@ -35,25 +35,25 @@ Lemma existsb_map {A B} (f : B -> bool) (g : A -> B) (l : list A) :
   existsb f (map g l) = existsb (fun a => f (g a)) l.
 Proof. induction l as [|a l IH]; cbn [map existsb]; [reflexivity|]. now rewrite IH. Qed.
 
-Lemma existsb_ext {A} (f g : A -> bool) (l : list A) :
+Lemma st_existsb_ext {A} (f g : A -> bool) (l : list A) :
   (forall a, f a = g a) -> existsb f l = existsb g l.
 Proof. intros H; induction l as [|a l IH]; cbn [existsb]; [reflexivity|]. now rewrite H, IH. Qed.
 
 (* ---- byte strings ---- *)
-Lemma bstr_eqb_refl (x : bstr) : bstr_eqb x x = true.
+Lemma st_bstr_eqb_refl (x : bstr) : bstr_eqb x x = true.
 Proof. induction x as [|a x IH]; cbn [bstr_eqb]; [reflexivity|]. rewrite N.eqb_refl. exact IH. Qed.
 
-Lemma bstr_eqb_true (x y : bstr) : bstr_eqb x y = true -> x = y.
+Lemma st_bstr_eqb_true (x y : bstr) : bstr_eqb x y = true -> x = y.
 Proof.
   revert y; induction x as [|a x IH]; intros [|c y] H; cbn [bstr_eqb] in H; try discriminate; [reflexivity|].
   apply andb_true_iff in H. destruct H as [H1 H2]. apply N.eqb_eq in H1. apply IH in H2. now subst.
 Qed.
 
-Lemma bstr_eqb_sym (x y : bstr) : bstr_eqb x y = bstr_eqb y x.
+Lemma st_bstr_eqb_sym (x y : bstr) : bstr_eqb x y = bstr_eqb y x.
 Proof.
   destruct (bstr_eqb x y) eqn:E.
-  - apply bstr_eqb_true in E. subst. now rewrite bstr_eqb_refl.
-  - destruct (bstr_eqb y x) eqn:E2; [|reflexivity]. apply bstr_eqb_true in E2. subst. now rewrite bstr_eqb_refl in E.
+  - apply st_bstr_eqb_true in E. subst. now rewrite st_bstr_eqb_refl.
+  - destruct (bstr_eqb y x) eqn:E2; [|reflexivity]. apply st_bstr_eqb_true in E2. subst. now rewrite st_bstr_eqb_refl in E.
 Qed.
 
 Lemma bstr_eqb_nil_r (x : bstr) : bstr_eqb x [] = match x with [] => true | _ => false end.
@@ -103,7 +103,7 @@ Lemma assoc_s_ext {A B} (f : A -> B) (beq : B -> B -> bool) (l1 : list (bstr * A
 Proof.
   intros Hb H k. rewrite forallb_forall in H.
   destruct (existsb (bstr_eqb k) (map fst l1 ++ map fst l2)) eqn:E.
-  - apply existsb_exists in E. destruct E as [k' [Hin Heq]]. apply bstr_eqb_true in Heq. subst k'.
+  - apply existsb_exists in E. destruct E as [k' [Hin Heq]]. apply st_bstr_eqb_true in Heq. subst k'.
     apply (opt_eqb_true beq Hb). now apply H.
   - rewrite existsb_app in E. apply orb_false_iff in E. destruct E as [E1 E2].
     rewrite (assoc_s_none _ _ E1), (assoc_s_none _ _ E2). reflexivity.
